@@ -314,3 +314,67 @@ def replay_dispatch(r):
 CHECKS['C11'] = c11
 REPLAYERS['placement'] = replay_placement
 REPLAYERS['stmt-dispatch'] = replay_dispatch
+
+
+def c18(prop, pool, verdict, tier, seed):
+    from fin import name_lemmas
+    from rtc import prop_c18
+    from vcheck import load_known
+    e1 = run_e1(prop, pool, verdict, tier, seed)
+    fz = run_fuzz(prop, pool, verdict, tier, seed)
+    lem = name_lemmas.check()
+    for f in lem['failures']:
+        rp = write_replay(prop, 'lemma-' + f['obligation'], {'kind': 'obligation-only', 'property': prop, 'obligation': f['obligation'],
+                                                             'solver': {'backend': 'cvc5 --strings-exp', 'detail': f['detail']}})
+        verdict.violation(rp, 'no-failing-input-found')
+    d = prop_c18.run(pool, tier, seed)
+    by = {}
+    for f in d['fails']:
+        by.setdefault(f['what'] + ':' + f['detail']['kind'], []).append(f)
+    for k, fs in sorted(by.items()):
+        rp = write_replay(prop, 'names-' + k, dict(fs[0], kind='names', property=prop, failing_inputs_in_scope=len(fs)))
+        verdict.violation(rp)
+    known = []
+    for f in load_known().get('findings', []):
+        if f['property'] == prop and f.get('kind') == 'bounded-region':
+            res, inK, _ = prop_c18.pipeline_case({k: tuple(v) for k, v in f['witness']['graph'].items()})
+            if res:
+                verdict.known.append('%s %s [region: %s] witness still fails: %s' % (f['id'], f['what'], f['region'], str(res[0])[:120]))
+                known.append(f['id'] + ' still fails')
+            else:
+                known.append(f['id'] + ' witness no longer fails')
+    cov = coverage_from(e1, fz, PROVED_NOTE + 'C18: the three NameGenerator methods are proved to return exactly name(kind, counter) and to advance exactly that counter '
+                        '(functional contract over uninterpreted concat/str); the string facts - each name shape is injective in (kind, index) and the three shapes are pairwise '
+                        'disjoint - are lemmas over the shapes read from the current source, discharged by cvc5 on the theory of strings (digits abstracted by A-str). '
+                        'Freshness then follows: a name with index = counter was never issued. Bounded: all histories of requests over 3 methods x 5 kinds x {graph, sub-graph '
+                        'handle} up to the length bound on a shared generator; every name handed out while the real pipeline runs on the enumerated closed CFGs is checked, at the '
+                        'moment it is returned, against every name issued so far and every name present in the hierarchy; NG_inv after every stage.')
+    cov['obligations'] += lem['obligations']
+    cov['discharged'] += lem['discharged']
+    cov['string_lemmas'] = {'backend': 'cvc5 1.0.3 --strings-exp', 'shapes': lem['shapes'], 'obligations': lem['obligations']}
+    cov['evaluations'] = d['cases'] + fz['evaluations']
+    cov['distinct_nontrivial'] = d['nontrivial']
+    cov['rule'] = ('request histories: every sequence of length <= %d over (method, kind, handle) with kinds %s; pipelines: every closed CFG with <= %d nodes, once with '
+                   'names "0".."n-1" and (n<=4) once with two blocks renamed into the generator\'s namespace (known-finding region R11: %d graphs, %d of them clobbered); '
+                   '%d names handed out and checked; non-trivial = history longer than 1 / graph with a cycle or branch'
+                   % (3 if tier == 'quick' else 4, prop_c18.KINDS, 4 if tier == 'quick' else 5, d['known_region'], d['known_region_fails'], d['names_issued']))
+    cov['exhaustive'] = True
+    cov['samples'] = cov['samples'] + lem['samples'][:2] + d['samples'][:2]
+    cov['known_findings'] = known
+    return 'other', cov, e1['assumptions'] + ['A-str: str(i) for i >= 0 is a non-empty digit string, injective in i (validated for i < 20000)',
+                                             'concat / str are uninterpreted in the z3 part; the string lemmas are proved separately by cvc5 for the shapes read from the source',
+                                             'reload histories (write/read between stages) are exercised by the C15 check once serialisation accepts restructured graphs']
+
+
+def replay_names(r):
+    from rtc import prop_c18
+    if r.get('what') == 'history':
+        res = prop_c18.history_ok([tuple(x) for x in r['history']])
+    else:
+        res, _, _ = prop_c18.pipeline_case({k: tuple(v) for k, v in r['graph'].items()}, r.get('rename'))
+    print('replay names: %s' % (res,))
+    return 1 if res else 0
+
+
+CHECKS['C18'] = c18
+REPLAYERS['names'] = replay_names
